@@ -10,7 +10,8 @@ consequences for EVERY marker `n ≤ a`: the files below `n` are untouched, ever
 trivially transitive.)
 
 `GStep P db g s' db' g'`: `g'` is the ghost directory of the state `s'` / handle `db'`, it has grown
-from `g`, and the active id did not decrease.  Every write path of the model is a `GStep`
+from `g`, the active id did not decrease, and the log of `g'` is the log of `g` plus entries whose
+records satisfy `P` (`LogExt`).  Every write path of the model is a `GStep`
 (`put_gstep`, `delete_gstep`, `bput_gstep`, `bdel_gstep`, `bcommit_gstep`, …).
 -/
 namespace XixiKV.Engine.HistP
